@@ -17,8 +17,12 @@ def checkScenario (evs : List Ev) : List String × Nat := Id.run do
     if e.ev == "alias" && e.arg 1 != "0" then fails := fails ++ ["C03 a delivered UPDATE slice was modified after delivery"]
     if e.ev == "goroutines" && e.arg 0 != "0" then fails := fails ++ [s!"C10 {e.arg 0} corebgp goroutines still running after Close returned"]
   let peers := evs.foldl (fun acc e => if e.peer != "-" && !acc.contains e.peer then acc ++ [e.peer] else acc) []
-  let closeCall := (evs.find? fun e => e.ev == "api.call" && e.arg 0 == "Close").map (·.seq)
-  let closeRet := (evs.find? fun e => e.ev == "api.ret" && e.arg 0 == "Close").map (·.seq)
+  -- Serve returning (Close, or the listener error that stopped it) ends every peer like Close does
+  let closeCall := (evs.find? fun e => e.ev == "api.call" && (e.arg 0 == "Close" || e.arg 0 == "ListenerClose")).map (·.seq)
+  let closeRet := (evs.find? fun e => e.ev == "api.ret" && (e.arg 0 == "Close" || e.arg 0 == "Serve")).map (·.seq)
+  for e in evs do
+    if e.ev == "api.ret" && e.arg 0 == "Serve2" && e.arg 1 != "closed" then
+      fails := fails ++ ["C10/C20 Serve on a server that has stopped serving must return ErrServerClosed"]
   for p in peers do
     match cfgOf evs p with
     | none => pure ()
@@ -52,6 +56,7 @@ def checkScenario (evs : List Ev) : List String × Nat := Id.run do
       fails := fails ++ monitorWriters evs p conns segs
       fails := fails ++ monitorCollision evs cfg conns segs stopCall
       fails := fails ++ monitorPacing evs p
+      fails := fails ++ reconnectInclusion evs p
       fails := fails ++ monitorDamping evs p conns triggers
       fails := fails ++ monitorAdmission evs p conns
       -- L2: the peer's projection must be a trace of the manager / FSM transition system
